@@ -14,7 +14,10 @@ fn strategy(tier: Tier) -> BoxedStrategy<LedgerCase> {
     p.max_rows = tier.pick(16, 36);
     p.year_edge = true;
     p.usd_norate = false;
-    let usual = (ledger_strategy(p, 2), intent_strategy(), any::<u8>()).prop_map(|(base, it, m)| {
+    // (a fifth of those hold share classes of one issuer: symbols equal up to their last dot)
+    let mut classes = p.clone();
+    classes.secs = vec!["BRK.A", "FOO", "BRK.B"];
+    let usual = (prop_oneof![4 => ledger_strategy(p, 2), 1 => ledger_strategy(classes, 2)], intent_strategy(), any::<u8>()).prop_map(|(base, it, m)| {
         // a third of the cases carry one rejected security
         if m % 3 == 0 { if let Some(rc) = super::c04::plant(&base, &it) { return rc.ledger; } }
         base
